@@ -15,7 +15,7 @@
                          every RemoveMatch(r) when it is
    quiescent c           no queued removal, every future finished *)
 From Coq Require Import List NArith Bool Arith.
-From ZV Require Import Base.Bytes C37.Model C37.Spec C37.Proofs C37.Sched C37.Witness C37.Check C37.CheckFacts.
+From ZV Require Import Base.Bytes C37.Model C37.Spec C37.Proofs C37.Sched C37.Witness C37.Check C37.CheckFacts C37.Seq.
 Import ListNotations.
 Open Scope nat_scope.
 
@@ -93,6 +93,24 @@ Theorem C37_scheduler_sound : forall allowed l c c',
   run_choices allowed l c = Some c' -> steps allowed c c'.
 Proof. exact run_choices_steps. Qed.
 Print Assumptions C37_scheduler_sound.
+
+(* ---- the executable oracle that judges the implementation's output ([spec_ok]: per API call, the events seen during it
+        respect the trace discipline, no RemoveMatch(r) in a call before and after which r is in use, at the end of
+        the call every signal rule in use is registered and every registered rule is in use or was held by an object
+        dropped since the last idle point) accepts EVERY sequential run of the model ([run_items]: one API call at a
+        time - single calls, ticks, run-until-idle - with the queued removals interleaving in any way) over a history
+        outside the two classes.  So the oracle demands nothing the theorems above do not give. *)
+Theorem C37_oracle_sound_partial : forall run c',
+  forallb (fun x => plain_item (fst x)) run = true -> run_items init run c' -> spec_ok ost0 run = true.
+Proof. exact oracle_sound_init. Qed.
+Print Assumptions C37_oracle_sound_partial.
+
+(* non-vacuity of the hypothesis: two streams on one rule, one dropped, one async-dropped, the queued removal runs at the
+   idle point *)
+Theorem C37_oracle_example :
+  (exists c', run_items init ex_seq_run c') /\ forallb (fun x => plain_item (fst x)) ex_seq_run = true.
+Proof. exact ex_seq_ok. Qed.
+Print Assumptions C37_oracle_example.
 
 (* the counter arithmetic of the per-rule trace checker (C37/Check.v) is that of add_match / remove_match on the entry
    concerned; other entries are untouched (so the search can be done rule by rule) *)
